@@ -100,6 +100,13 @@ CLAIMED["C02"] = (
     "Partial on one clause, labelled so: independence of the listing order of the tasks is exercised (the generator shuffles tasks) but not proved. Tie: job graph of every generated function vs jdeps; "
     "calls with argument terms, results, returned error of every execution vs the model; the operational and the denotational model are cross-checked on every case.",
     GEN_NOTE, "DESIGN.md §7 C02")
+CLAIMED["C15"] = (
+    "Coq proof about a model of the generator's prologue (mentions recorded in a map, sorted by position, one assignment each) + correspondence: every generated prologue compared with the extracted model; evaluation logs of generated programs whose arguments are logged calls, reassigned bare identifiers and a clock-reading plain expression; locals named like generated identifiers",
+    "Partial, labelled so. Proved for every list of mentions (any template traversal order, any repetitions, any map iteration order): the prologue is strictly sorted by source position, duplicate-free, contains exactly the "
+    "mentioned expressions, depends only on their set, and evaluating it is evaluating the user's expressions in source order, each once (C15_sorted, C15_once, C15_exactly_the_mentioned, "
+    "C15_order_of_mentions_irrelevant, C15_source_order); distinct positions give distinct variables. Not theorems (Go scoping and runtime facts, observed on every run instead): evaluation on the calling goroutine "
+    "before any task starts, and absence of capture. Known finding F9 (an expression mentioning an enclosing `err`) is reported as KNOWN-FINDING from a named probe.",
+    GEN_NOTE + " The capture clause is refuted by probe F9 on the unchanged tree (recorded, not repaired: the repair moves the prologue out of the closure and changes every generated file).", "DESIGN.md §7 C15")
 CLAIMED["C11"] = (GEN_TECH,
     "For every flow, scenario, task and valuation: predicate false => the task function is not called, its outputs are the zero values and it cannot fail the flow "
     "(C11_false_*); the function is invoked only if there is no predicate or it returned true (C11_invoked_only_if_true); the predicate is called with exactly the values of "
